@@ -35,6 +35,11 @@ impl TlsHandshaker {
     where
         S: Read + Write,
     {
+        // OpenSSL reads a reference name with a leading dot as "any sub-domain of": such a host name
+        // would be matched by certificates issued for other hosts.
+        if domain.starts_with('.') {
+            return Err(io::Error::new(io::ErrorKind::InvalidInput, format!("invalid host name for TLS: {domain}")).into());
+        }
         let connector = self.inner.build()?;
         let stream = match connector.connect(domain, stream) {
             Ok(stream) => stream,
